@@ -118,6 +118,30 @@ theorem lookup_range_zip (n : Nat) (c : List Bool) (i : Nat) (hn : c.length = n)
   rw [List.range_eq_range', lookup_range'_zip c 0 i]
   simp
 
+
+/-- `_get_host_value` is the value `mkHost` gives a generated host: the sensitive value when the address is a key of
+`sensitive_hosts`, the base value otherwise -/
+theorem Src_get_host_value (p : Params) (sens : List (Addr × Int)) (addr : Addr) (cfg : Cfg) :
+    SrcGen.ScenarioGenerator._get_host_value sens p.baseHostValue addr = (mkHost p sens addr cfg).value := rfl
+
+/-- `_is_sensitive_host` is the membership test the model's repair loop (`ensureVulnerable`) uses, and a sensitive host is
+exactly one whose value is looked up rather than defaulted -/
+theorem Src_is_sensitive_host (sens : List (Addr × Int)) (addr : Addr) :
+    SrcGen.ScenarioGenerator._is_sensitive_host sens addr = (sens.lookup addr).isSome := rfl
+
+theorem Src_value_of_sensitive (p : Params) (sens : List (Addr × Int)) (addr : Addr) (cfg : Cfg) (v : Int)
+    (h : sens.lookup addr = some v) :
+    SrcGen.ScenarioGenerator._is_sensitive_host sens addr = true ∧ (mkHost p sens addr cfg).value = v := by
+  simp [SrcGen.ScenarioGenerator._is_sensitive_host, mkHost, h]
+
+theorem Src_value_of_ordinary (p : Params) (sens : List (Addr × Int)) (addr : Addr) (cfg : Cfg)
+    (h : SrcGen.ScenarioGenerator._is_sensitive_host sens addr = false) :
+    (mkHost p sens addr cfg).value = p.baseHostValue := by
+  unfold SrcGen.ScenarioGenerator._is_sensitive_host at h
+  cases hl : sens.lookup addr with
+  | none => simp [mkHost, hl]
+  | some v => simp [hl] at h
+
 example : SrcGen.ScenarioGenerator._convert_to_os_map [0, 1, 2] 1 = [(0, false), (1, true), (2, false)] := by decide
 example : SrcGen.ScenarioGenerator._convert_to_service_map [0, 1] [true, false] = [(0, true), (1, false)] := by decide
 end NASim
